@@ -21,6 +21,7 @@ OPS = ["(set ", "(get ", "(accumulated ", "(synth ", "(setcell ", "(setlru ", "(
 COQ_TARGETS = ["Acc/Model.vo", "Acc/Spec.vo", "Acc/Dsl.vo"]
 
 PROFILES = {
+    "acc-flip": dict(directed=True),
     # w: weights of history operations
     # p_acc: probability that a generated sub-expression is wrapped in (acc ..)
     # p_mask: probability that a node's value is masked to a constant (so it backdates while its pushes vary)
@@ -182,8 +183,62 @@ class Gen:
                       ["ival"] + ival, ["idur"] + idur, ["prog"] + nodes, ["hist"] + hist])
 
 
+def flip_case(r, cid, size):
+    """Directed family (found necessary by a seeded defect the random profiles missed): a chain
+    top -> mid_1 -> .. -> low where `low` has the constant value 0 (so it backdates) and pushes
+    only while an input bit is set, every mid node pushes a value of its own and reads nothing
+    that changes (so it is only deep-verified when the input flips), and `accumulated` is asked
+    at the top / in the middle before and after every flip.  The accumulated_inputs flag of the
+    reused pushing memos must follow the flips."""
+    nk = r.randint(2, 3)
+    ni = nk
+    fam_order = [0, 1, 2]
+    r.shuffle(fam_order)
+    by_rank = sorted(range(3), key=lambda f: fam_order[f])      # lowest family first
+    low_f, mid_f, top_f = by_rank
+    i, f = r.randrange(ni), r.randrange(3)
+    k_low = r.randrange(nk)
+    cond = ["in", i, f] if r.random() < 0.6 else ["op", "and", ["in", i, f], ["lit", r.choice([1, 2])]]
+    pushed = ["acc", ["op", "add", ["lit", r.choice([1, 2, 3])], ["in", i, f]]] if r.random() < 0.5 else ["acc", ["lit", r.choice([1, 2, 3])]]
+    low = ["node", low_f, k_low, ["op", "and", ["lit", 0], ["if", cond, pushed, ["lit", 0]]]]
+    nodes = [low]
+    # 1..2 mid nodes in the middle family (keys ascending = ranks ascending), each pushes its own value
+    nmid = r.randint(1, min(2, nk))
+    callee = ["call", low_f, ["lit", k_low]]
+    mids = []
+    for k in range(nmid):
+        own = ["acc", ["lit", r.choice([1, 2, 3])]]
+        body = ["op", r.choice(["add", "or", "max"]), own, callee] if r.random() < 0.7 else ["op", "add", callee, own]
+        nodes.append(["node", mid_f, k, body])
+        mids.append((mid_f, k))
+        callee = ["call", mid_f, ["lit", k]]
+    k_top = r.randrange(nk)
+    top_body = callee if r.random() < 0.5 else ["op", "add", callee, ["acc", ["lit", 3]]]
+    nodes.append(["node", top_f, k_top, top_body])
+    ival = [[a, b, 0] for a in range(ni) for b in range(3)]
+    idur = []
+    hist = []
+    ask = [(top_f, k_top)] + mids
+    v = 0
+    for ph in range(r.randint(3, 6)):
+        for q in r.sample(ask, r.randint(1, len(ask))):
+            hist.append([r.choice(["accumulated", "accumulated", "get"]), q[0], q[1]])
+            if hist[-1][0] == "get":
+                hist.append(["accumulated", q[0], q[1]])
+        v = r.choice([1, 2, 3]) if v == 0 else r.choice([0, 0, 1, 2, 3])
+        hist.append(["set", i, f, v])
+        if r.random() < 0.2:
+            hist.append(["synth", 0])
+    for q in ask:
+        hist.append(["accumulated", q[0], q[1]])
+    return se.sx(["case", cid, ["cfg", ["nk", nk], ["ni", ni], ["nf", 3], ["nfam", 3], ["lru", 1, 2]],
+                  ["ival"] + ival, ["idur"] + idur, ["prog"] + nodes, ["hist"] + hist])
+
+
 def generate(seed, profile, n, size, prefix="a"):
     rng = random.Random(f"{seed}/{profile}/{size}/acc")
+    if profile == "acc-flip":
+        return [flip_case(rng, f"{prefix}{i}", size) for i in range(n)]
     g = Gen(rng, profile, size)
     return [g.case(f"{prefix}{i}") for i in range(n)]
 
